@@ -1,12 +1,20 @@
 //! C04 - expressions that read outputs see the most recently read device values.
+//!
+//! As built (DESIGN 8.4b): self-consistent oracle. Every row statement carries a tag and three
+//! 64-bit probe inputs `(Q)` that read device outputs (names that cannot be variables at that
+//! row) or variables that shadow an output of the same name. What the probe must show is
+//! decided from the recording driver's own log: the value the driver returned for Q in the
+//! latest output-reading call made for a *checked* item (or by the constructor) before the
+//! row was evaluated. No reference interpreter is involved.
 
 use crate::choice::Ch;
 use crate::device::*;
 use crate::engine::*;
 use crate::gen::*;
+use crate::model::*;
+use crate::probe::*;
 use crate::props::common::*;
 use crate::real::*;
-use crate::ri;
 
 pub struct C04;
 
@@ -15,6 +23,8 @@ fn feedback_cfg() -> Cfg {
     c.n_out = (1, 3);
     c.n_bidir = (0, 1);
     c.allow_c = true;
+    c.allow_input_x = true;
+    c.max_x = 1;
     // a virtual signal can turn a row into an error item; the caller goes on, and what later
     // expressions see must not be affected
     c.max_virtual = 1;
@@ -25,12 +35,14 @@ fn feedback_cfg() -> Cfg {
     c
 }
 
+const NPROBES: usize = 3;
+
 impl Property for C04 {
     fn id(&self) -> &'static str {
         "C04"
     }
     fn rule(&self) -> &'static str {
-        "profile `feedback`: programs that read outputs in row entries, let, loop bounds, while and ite conditions, before the first row and after mid-clock rows (C rows with both driver types, so forwarded mid-clock calls of the defaulting driver must stay invisible); variables and counters named like outputs; device answers differ on every output-reading call; with probability 1/4 Z/X answers, with probability 1/8 a layout that omits a read signal. Oracle: reference interpreter with the same script: identical input vectors and expected values, row count and end; omitted read signal => constructor error after exactly one call; Z/X read => that next() is a runtime error item. Non-trivial: an output is read in an expression after >= 2 output-reading calls that returned different values for it (or a constructor refusal / ZX error is due); distinct by source + signals + driver."
+        "profile `feedback`: programs that read outputs in row entries, let, loop bounds, while and ite conditions, with C rows (both driver types, so forwarded mid-clock calls of the defaulting driver must stay invisible) and X rows, 0-1 virtual signals; variables and counters named like outputs; device answers differ on every call; with probability 1/4 Z/X answers, with probability 1/8 a layout that omits a read signal. Every row statement carries a tag and three 64-bit probe inputs `(Q)` reading a device output that cannot be a variable at that row, or a variable that shadows an output. Oracle (self-consistent, from the recording driver's own log): the probe value of every item equals the value the driver returned for Q in the latest call made for a checked item (or by the constructor) before the source row was evaluated; a Z/X answer there means the row must be an error item, not a row; a shadowing variable's probe equals vars(); an omitted read signal => constructor error after exactly one call and no row. Non-trivial: a device probe was checked after >= 2 output-reading calls that returned different values for it, or after a mid-clock write, or a constructor refusal / Z-X error was due; distinct by source + signals + driver."
     }
     fn cases(&self, tier: Tier) -> u64 {
         match tier {
@@ -39,12 +51,26 @@ impl Property for C04 {
         }
     }
     fn required_classes(&self) -> Vec<&'static str> {
-        vec!["fresh-read", "ctor-refusal-due", "zx-error-due", "clock-triple", "defaulting-driver", "overriding-driver", "read-before-first-row", "shadowing", "row-after-virtual-error"]
+        vec![
+            "fresh-read",
+            "ctor-refusal-due",
+            "zx-read-error-seen",
+            "probe-after-mid-clock-write",
+            "defaulting-driver",
+            "overriding-driver",
+            "probe-before-first-row",
+            "shadowing-variable-probed",
+            "row-after-virtual-error",
+            "probe-in-loop",
+        ]
     }
     fn run(&self, s: &Streams) -> CaseOut {
         let mut out = CaseOut::new();
         let cfg = feedback_cfg();
-        let built = gen_case(&mut Ch::new(&s[0]), &cfg);
+        let mut built = gen_case(&mut Ch::new(&s[0]), &cfg);
+        let readable: Vec<String> =
+            built.sigs.iter().filter(|s| s.is_output() && is_ident(&s.name)).map(|s| s.name.clone()).collect();
+        let rows = instrument(&mut built, &mut Ch::new(&s[1]), NPROBES, ProbePref::Device, &readable);
         let text = built_text(&built);
         let mut dch = Ch::new(&s[2]);
         let must = built.must_supply();
@@ -56,60 +82,27 @@ impl Property for C04 {
         if dch.chance(1, 4) {
             spec.zx = 24;
         }
+        let mut omitted = None;
         if !must.is_empty() && dch.chance(1, 8) {
             let victim = must[dch.upto(must.len())];
             spec.layout.retain(|i| *i != victim);
+            omitted = Some(built.sigs[victim].name.clone());
         }
         render_case(&mut out, &text, &built.sigs, Some(&spec));
         let f = feats(&built);
         feat_classes(&mut out, &f);
         out.class(if spec.override_write { "overriding-driver" } else { "defaulting-driver" });
-        let t = ri::run(&built.prog, &built.sigs, &spec, &ri::RiOpts { continue_after_virtual_error: true, ..Default::default() });
-        fact_classes(&mut out, &t);
-        if matches!(t.end, ri::RiEnd::StepCap) && t.items.is_empty() {
-            out.discard("step-cap-before-first-row");
-            return out;
-        }
-        // only Z/X reads may end the reference run in this profile
-        let last_hazard = t.items.last().and_then(|i| match i {
-            ri::RiItem::Hazard { hazard, .. } => Some(hazard.clone()),
-            _ => None,
-        });
-        if let Some(h) = &last_hazard {
-            if !matches!(h, ri::Hazard::ZxRead(_)) {
-                out.discard("other-hazard");
-                return out;
-            }
-            out.class("zx-error-due");
-        }
-        out.class_if(t.facts.fresh_reads > 0, "fresh-read");
-        {
-            let mut seen_err = false;
-            for i in &t.items {
-                match i {
-                    ri::RiItem::Hazard { after_call: true, .. } => seen_err = true,
-                    ri::RiItem::Row(_) if seen_err => out.class("row-after-virtual-error"),
-                    _ => {}
-                }
-            }
-        }
-        // a read evaluated before the first row: first statement chain reads the device
-        if let Some(crate::model::Stmt::Let(_, e)) = built.prog.stmts.first() {
-            let mut reads = false;
-            e.visit(&mut |x| {
-                if let crate::model::Expr::Var(n) = x {
-                    if built.analysis.reads.contains(n) {
-                        reads = true
-                    }
-                }
-            });
-            out.class_if(reads, "read-before-first-row");
-        }
         let Some(tc) = load_wellformed(&mut out, "c04", &text, &built.sigs) else {
             return out;
         };
-        let real = run_real(&tc, &built.sigs, &spec, &RunOpts { max_next: next_budget(&t), fuel: fuel_for(t.facts.steps), continue_after_error: true, ..Default::default() });
-        if !t.ctor_missing.is_empty() {
+        let real = run_real(
+            &tc,
+            &built.sigs,
+            &spec,
+            &RunOpts { max_next: 300, want_vars: true, continue_after_error: true, ..Default::default() },
+        );
+        // the program reads an output the driver does not supply: construction must fail
+        if let Some(name) = &omitted {
             out.class("ctor-refusal-due");
             out.nontrivial = true;
             match &real.ctor {
@@ -122,24 +115,197 @@ impl Property for C04 {
                 other => out.fail(
                     "c04:missing-read-output-accepted",
                     format!(
-                        "the program reads {:?}, which the driver does not supply; constructing the iterator must fail, got {:?}",
-                        t.ctor_missing,
+                        "the program reads {name:?}, which the driver does not supply; constructing the iterator must fail, got {:?}",
                         other.as_ref().map(|o| o.short())
                     ),
                 ),
             }
             return out;
         }
-        if let Some((k, m)) = trace_diff(&t, &real, Projection::INPUTS_EXPECTED) {
-            let ropts = ri::RiOpts { continue_after_virtual_error: true, ..Default::default() };
-            if !k.starts_with("panic:") && !still_differs_with_real_call_indices(&built.prog, &built.sigs, &spec, &ropts, &real, Projection::INPUTS_EXPECTED) {
-                out.class("difference-caused-by-call-protocol-only");
-                return out;
+        if let Some(c) = &real.ctor {
+            match c {
+                RealItem::Panic(p) => out.fail(p.key(), format!("constructor panicked: {p}")),
+                // every read output is supplied: nothing to refuse
+                o => out.fail("c04:ctor-refused", format!("every output the program reads is supplied, yet the constructor failed: {}", o.short())),
             }
-            let key = if k.starts_with("panic:") { k } else { format!("c04:{k}") };
-            out.fail(key, m);
+            return out;
         }
-        out.nontrivial = t.facts.fresh_reads > 0 || last_hazard.is_some();
+        // this oracle relies on "one driver call per item" (C02) to know which call belongs
+        // to which item
+        let n = real.items.len();
+        let calls_ok = (0..n).all(|i| {
+            let d = real.log_len_before[i + 1] - real.log_len_before[i];
+            match &real.items[i] {
+                RealItem::Row(_) | RealItem::DriverErr(_) => d == 1,
+                _ => d <= 1,
+            }
+        });
+        if !calls_ok {
+            out.discard("call-protocol-broken");
+            return out;
+        }
+        let sig_index = |name: &str| built.sigs.iter().position(|s| s.name == name);
+        // answer of the latest call made for a checked item (or the constructor)
+        let mut latest: Vec<(usize, OutVal)> = real.log[0].answer.clone();
+        let mut latest_call = 0usize;
+        let mut distinct_answers_seen: std::collections::BTreeMap<String, std::collections::BTreeSet<String>> = Default::default();
+        let mut checked_calls = 1usize;
+        let mut midclock_since = false;
+        let mut seen_virtual_error = false;
+        let mut nontrivial = false;
+        // position within the current run of same-tag items
+        let mut run_tag: Option<i64> = None;
+        let mut run_pos = 0usize;
+        let mut desync = false;
+        let mut desync_tag: Option<i64> = None;
+        // what the probes of the current evaluation must show (fixed at the first item of a group)
+        let mut group_latest: Vec<(usize, OutVal)> = latest.clone();
+        let mut group_call = 0usize;
+        for (i, item) in real.items.iter().enumerate() {
+            let made_call = real.log_len_before[i + 1] > real.log_len_before[i];
+            let call = if made_call { Some(&real.log[real.log_len_before[i]]) } else { None };
+            match item {
+                RealItem::Panic(p) => {
+                    out.fail(p.key(), format!("item {i} panicked: {p}"));
+                    return out;
+                }
+                RealItem::DriverErr(_) => break,
+                RealItem::RuntimeErr(_) => {
+                    if made_call {
+                        // an error item with its driver call: a virtual signal read Z/X in this
+                        // call; the row is consumed, the device values of that call are the
+                        // latest ones read
+                        seen_virtual_error = true;
+                        if let Some(c) = call {
+                            if c.read {
+                                latest = c.answer.clone();
+                                latest_call = real.log_len_before[i];
+                                checked_calls += 1;
+                                midclock_since = false;
+                            }
+                        }
+                        // The items that follow may be the rest of the errored row's
+                        // expansion (evaluated before this call) or a new evaluation; which
+                        // one cannot be told without the row. Device probes are not checked
+                        // in the run of same-tag items that follows; they are again from the
+                        // next change of tag on (certainly a fresh evaluation).
+                        desync = true;
+                        desync_tag = None;
+                        continue;
+                    }
+                    // an expression could not be evaluated (a Z/X read, for instance): what
+                    // the program state is afterwards is not specified; stop here
+                    out.class("zx-read-error-seen");
+                    nontrivial = true;
+                    break;
+                }
+                RealItem::Row(row) => {
+                    let Some(InVal::Val(tag)) = row.inputs.iter().find(|e| e.0 == "TAG").map(|e| e.1) else { break };
+                    let Some(info) = rows.get(&((tag - 1) as usize)) else { break };
+                    if desync {
+                        match desync_tag {
+                            None => desync_tag = Some(tag),
+                            Some(t) if t == tag => {}
+                            Some(_) => {
+                                desync = false;
+                                run_tag = None;
+                            }
+                        }
+                    }
+                    // is this item the first of a new evaluation of its source row?
+                    if run_tag == Some(tag) {
+                        run_pos += 1;
+                    } else {
+                        run_tag = Some(tag);
+                        run_pos = 0;
+                    }
+                    if run_pos % info.group.max(1) == 0 {
+                        group_latest = latest.clone();
+                        group_call = latest_call;
+                        out.class_if(midclock_since, "probe-after-mid-clock-write");
+                        if midclock_since {
+                            nontrivial = true;
+                        }
+                    }
+                    out.class_if(seen_virtual_error, "row-after-virtual-error");
+                    out.class_if(i == 0, "probe-before-first-row");
+                    for (k, p) in info.probes.iter().enumerate() {
+                        let Some(name) = p else { continue };
+                        let Some(InVal::Val(shown)) = row.inputs.iter().find(|e| e.0 == format!("PR{k}")).map(|e| e.1) else { continue };
+                        if info.definite.contains(name) {
+                            // a variable of that name is in scope: it takes precedence
+                            out.class("shadowing-variable-probed");
+                            if let Some(Some(vars)) = real.vars.get(i) {
+                                if vars.get(name) != Some(&shown) {
+                                    out.fail(
+                                        "c04:variable-does-not-take-precedence",
+                                        format!(
+                                            "item {i} (source row #{}): ({name}) evaluated to {shown} although the variable {name} = {:?} is in scope (device value {:?})",
+                                            tag - 1,
+                                            vars.get(name),
+                                            sig_index(name).and_then(|si| group_latest.iter().find(|(s, _)| *s == si).map(|(_, v)| *v))
+                                        ),
+                                    );
+                                    return out;
+                                }
+                            }
+                            continue;
+                        }
+                        if desync {
+                            continue;
+                        }
+                        let Some(si) = sig_index(name) else { continue };
+                        let want = group_latest.iter().find(|(s, _)| *s == si).map(|(_, v)| *v);
+                        out.class_if(info.depth > 0, "probe-in-loop");
+                        match want {
+                            Some(OutVal::Val(v)) => {
+                                let seen = distinct_answers_seen.entry(name.clone()).or_default();
+                                if checked_calls >= 2 && seen.len() >= 2 {
+                                    out.class("fresh-read");
+                                    nontrivial = true;
+                                }
+                                if shown != v {
+                                    out.fail(
+                                        "c04:stale-or-wrong-device-value",
+                                        format!(
+                                            "item {i} (source row #{}): ({name}) evaluated to {shown}; the latest output-reading call made for a checked row before this row was evaluated (driver call #{group_call}) returned {name} = {v}",
+                                            tag - 1
+                                        ),
+                                    );
+                                    return out;
+                                }
+                            }
+                            Some(zx) => {
+                                out.fail(
+                                    "c04:zx-read-yields-a-row",
+                                    format!(
+                                        "item {i} (source row #{}): the row reads {name}, for which the latest output-reading call (driver call #{group_call}) returned {zx}; the row must be an error item, got a row with ({name}) = {shown}",
+                                        tag - 1
+                                    ),
+                                );
+                                return out;
+                            }
+                            None => {}
+                        }
+                    }
+                    // this item's own call
+                    if let Some(c) = call {
+                        if !row.outputs.is_empty() {
+                            latest = c.answer.clone();
+                            latest_call = real.log_len_before[i];
+                            checked_calls += 1;
+                            midclock_since = false;
+                            for (si, v) in &c.answer {
+                                distinct_answers_seen.entry(built.sigs[*si].name.clone()).or_default().insert(format!("{v}"));
+                            }
+                        } else {
+                            midclock_since = true;
+                        }
+                    }
+                }
+            }
+        }
+        out.nontrivial = nontrivial;
         out
     }
 }
